@@ -230,6 +230,11 @@ impl<'a> ExprAST<'a> {
     fn get_precidence(&self) -> (bool, (i64, i64)) {
         match self {
             ExprAST::Binary(op, _, _) => (true, InfixOpManager::new().get_precidence(op)),
+            // `x not OP y` is written infix and binds like OP
+            ExprAST::Unary("not", rhs) => match rhs.as_ref() {
+                ExprAST::Binary(op, _, _) => (true, InfixOpManager::new().get_precidence(op)),
+                _ => (false, (-1, -1)),
+            },
             _ => (false, (-1, -1)),
         }
     }
@@ -301,8 +306,16 @@ impl<'a> ExprAST<'a> {
     // the operand of a prefix operator is a primary: anything but an infix
     // expression or a conditional
     fn unary_expr(&self, op: &'a str, rhs: &ExprAST) -> String {
+        // `not` over an infix expression is written the way it is read back without
+        // extra nesting: `x not OP y`
+        if let (true, _) = self.get_precidence() {
+            if let ExprAST::Binary(op2, l, r) = rhs {
+                return self.infix_expr(op2, l, r, true);
+            }
+        }
         let right = match rhs {
-            ExprAST::Binary(..) | ExprAST::Ternary(..) => rhs.paren_expr(),
+            ExprAST::Ternary(..) => rhs.paren_expr(),
+            _ if rhs.get_precidence().0 => rhs.paren_expr(),
             _ => rhs.expr(),
         };
         op.to_string() + " " + &right
@@ -313,6 +326,10 @@ impl<'a> ExprAST<'a> {
     // not bind tighter than the operand's own right side, on the right if the operand
     // binds tighter than the operator's right side; a conditional operand always needs them
     fn binary_expr(&self, op: &'a str, lhs: &ExprAST, rhs: &ExprAST) -> String {
+        self.infix_expr(op, lhs, rhs, false)
+    }
+
+    fn infix_expr(&self, op: &str, lhs: &ExprAST, rhs: &ExprAST, negated: bool) -> String {
         let (l_bp, r_bp) = InfixOpManager::new().get_precidence(op);
         let left = match lhs.get_precidence() {
             (true, (_, lhs_r_bp)) if lhs_r_bp < l_bp => lhs.paren_expr(),
@@ -324,7 +341,7 @@ impl<'a> ExprAST<'a> {
             _ if matches!(rhs, ExprAST::Ternary(..)) => rhs.paren_expr(),
             _ => rhs.expr(),
         };
-        left + " " + op + " " + &right
+        left + (if negated { " not " } else { " " }) + op + " " + &right
     }
 
     // a postfix operator applies to the token-level expression right before it; postfix
